@@ -25,6 +25,8 @@ import WuffsVerif.Proof.Flate.CutAll
 import WuffsVerif.Proof.Flate.Whole2
 import WuffsVerif.Proof.Flate.ZlibAll
 import WuffsVerif.Proof.Flate.Frame
+import WuffsVerif.Proof.Flate.ZlibWhole
+import WuffsVerif.Proof.Flate.MinLen
 
 namespace WuffsVerif.Props.C16
 open WuffsVerif.Flate WuffsVerif.Flate.Cut WuffsVerif.Flate.Spec
@@ -628,7 +630,43 @@ theorem zlibcut_needs_minimum (encoded : Bytes) (limit : Int) (r : CutResult)
   all_goals
     rename_i r' hcut _
     have := cut_needs_minimum _ _ _ _ hcut
-    simp only [Int.ofNat_eq_coe] at this
+    simp only [Int.ofNat_eq_natCast] at this
     omega
+
+
+/-! ## 9. "… the whole original when the limit is not smaller than the stream", with dictionaries and for zlib (round 3) -/
+
+/-- third clause of `cut_prefix` for streams that need a preset dictionary -/
+theorem cut_whole_dict (w : Bool) (dict s T : Bytes) (n0 : Nat) (limit : Int) (r : CutResult)
+    (hs : Spec.inflateDict dict s = some (T, n0)) (hT : T.size + 32768 < 2147483648)
+    (h : Cut.Cut w s limit = .ok r) (hlim : (s.size : Int) ≤ limit) (h30 : s.size ≤ 2 ^ 30) :
+    r.decodedLen = T.size :=
+  Cut.Cut_whole_dict w dict s T n0 limit r hs hT h hlim h30
+
+/-- **`zlibcut.Cut` returns the whole original when the limit is not smaller than the stream** — every
+valid zlib stream, with or without a preset dictionary (up to 1 GiB, where `flatecut.Cut` clamps the
+limit).  With `zlibcut_prefix`, `zlibcut_lengths_in_bounds` and `zlibcut_never_panics` this is the
+property in full for zlib. -/
+theorem zlibcut_whole (dict s T : Bytes) (n : Nat) (limit : Int) (r : CutResult)
+    (hz : Spec.zlibDecode dict s = some (T, n)) (hT : T.size + 32768 < 2147483648)
+    (h : ZlibCut.Cut s limit = .ok r) (hlim : (s.size : Int) ≤ limit) (h30 : s.size ≤ 2 ^ 30) :
+    r.decodedLen = T.size :=
+  ZlibCut.Cut_whole_all dict s T n limit r hz hT h hlim h30
+
+
+/-! ## 10. The result is never shorter than the documented minimum (valid streams; round 3) -/
+
+/-- A complete DEFLATE stream has at least 2 bytes, so by `cut_prefix`/`cut_prefix_dict` a successful `Cut` of
+a valid stream returns `encodedLen ≥ SmallestValidMaxEncodedLen = 2`. -/
+theorem cut_result_at_least_minimum (w : Bool) (dict s T : Bytes) (n0 : Nat) (limit : Int) (r : CutResult)
+    (hs : Spec.inflateDict dict s = some (T, n0)) (hT : T.size + 32768 < 2147483648)
+    (h : Cut.Cut w s limit = .ok r) : 2 ≤ r.encodedLen :=
+  Cut.inflateDict_min dict _ _ _ (cut_prefix_dict w dict s T n0 limit r hs hT h).1
+
+/-- … and a successful `zlibcut.Cut` of a valid zlib stream returns `encodedLen ≥ 8`. -/
+theorem zlibcut_result_at_least_minimum (dict s T : Bytes) (n : Nat) (limit : Int) (r : CutResult)
+    (hz : Spec.zlibDecode dict s = some (T, n)) (hT : T.size + 32768 < 2147483648)
+    (h : ZlibCut.Cut s limit = .ok r) : 8 ≤ r.encodedLen :=
+  Cut.zlibDecode_min dict _ _ _ (zlibcut_prefix dict s T n limit r hz hT h).1
 
 end WuffsVerif.Props.C16
